@@ -10,6 +10,7 @@
     Exclusion: documents containing a NaN float ([no_nan]): the Rust code panics on those (F1). *)
 From Coq Require Import NArith ZArith List Bool.
 From SFV Require Import Base.Bytes Base.F64 Msgpack.Wire Read.Lazy Read.ReadRun Read.ReadSpec Read.ReadFuel Read.ReadProofs.
+From SFV Require Import Base.RsPrelude Read.LazyTypes Gen.LazyNewGen Read.LazyNewGenEq.
 Import ListNotations.
 Open Scope N_scope.
 
@@ -90,3 +91,32 @@ Example C01_example_answers2 :
     OVal (ANum 0xc00921fb60000000); OVal (ANum 0x400921fb54442d18); OVal (AObj (0, [SIdx 12; SVal 0; SIdx 0]) 0);
     OLen (Some 0); OVal (AStr (0, [SIdx 12; SKey 1]) 0) ].
 Proof. vm_compute. reflexivity. Qed.
+
+(** * The header decoder [lz_new] IS the code (tie by translation, T8)
+
+    [Gen/LazyNewGen.v] is regenerated on every run from provider/src/read/lazy_value_ref.rs by translators/rs2v: the
+    bounds-checked [Cursor] reads ([read_marker], [read_u8] ... [read_u64], [read_i8] ... [read_i64], [read_f32],
+    [read_f64]), [LazyValueRef::new_number], [new_string] and [LazyValueRef::new], the decoder of ONE value header --
+    the function on which the whole lazy-reader model (and, as [hdr], the sequential-decoder specification of C08)
+    rests.  For every input made of bytes that does not fill the address space, EVERY position (also beyond the
+    input), both overflow modes and every pointer width of at least 32 bits, the translated Rust returns exactly what
+    [lz_new] returns ([same_res]: the same lazy node and end position, or the same error code) and never panics.
+    [rmp::Marker::from_u8] is modelled by hand ([Read/LazyTypes.v]). *)
+Theorem C01_code_new : forall W trap bs pos,
+  Forall (fun b => b < 256) bs -> lenN bs + 9 < 2 ^ W -> 32 <= W ->
+  same_res (LazyValueRef_new W trap bs pos) (lz_new W trap bs pos).
+Proof. exact lazy_new_eq. Qed.
+
+Theorem C01_code_new_never_panics : forall W trap bs pos,
+  Forall (fun b => b < 256) bs -> lenN bs + 9 < 2 ^ W -> 32 <= W ->
+  exists r, LazyValueRef_new W trap bs pos = GOk r.
+Proof. exact lazy_new_never_panics. Qed.
+
+(** what [same_res] says *)
+Theorem C01_code_same_res_meaning : forall g h,
+  same_res g h <-> match g, h with
+                   | GOk (ROk (v, e)), Ok (l, e') => conv v = l /\ e = e'
+                   | GOk (RErr c), Err c' => c = c'
+                   | _, _ => False
+                   end.
+Proof. intros. reflexivity. Qed.
